@@ -13,6 +13,7 @@ use jrv::rng::{Rng, permutations};
 use jrv::runner::*;
 use jrv::sanit::{self, SubOutcome};
 use jrv::script::{ClientOut, ServerSide};
+use std::sync::atomic::Ordering;
 use jsonrpsee_core::client::{BatchResponse, ClientT, Subscription, SubscriptionClientT};
 use jsonrpsee_core::params::BatchRequestBuilder;
 use jsonrpsee_core::rpc_params;
@@ -624,6 +625,116 @@ async fn full_queue_drop_case(seed: u64, cycles: usize) -> (Vec<(String, String)
 	(violations, sizes, unsubs)
 }
 
+/// Directed scenario: the transport refuses to write exactly the unsubscribe call of one subscription (a recoverable send
+/// error: message too large for this transport, say) and keeps working for every other message. Whatever the client makes
+/// of that error, IF it stays connected the statement applies to it: once the server has closed that subscription itself,
+/// the other subscriptions are unsubscribed and acknowledged and every call is answered, its tables must be empty.
+/// (A client that gives up the connection on the error is outside the statement; that outcome is counted.)
+///
+/// Variants (by seed): 0 the consumer drops the stream; 1 it calls `unsubscribe()`; 2 the subscription lags.
+async fn unsub_write_refused_case(seed: u64) -> (Vec<(String, String)>, bool, usize) {
+	let mut violations = Vec::new();
+	let mut r = Rng::new(seed);
+	let variant = r.below(3);
+	let label = ["drop", "unsubscribe", "lag"][variant as usize];
+	let (client, mut srv) = jrv::clientsim::client(ClientCfg { sub_buffer: BUFFER, string_ids: r.bool(), ..Default::default() });
+	let n_subs = 1 + r.usize(3);
+	let mut handles = Vec::new();
+	let mut ids = Vec::new();
+	for k in 0..n_subs {
+		let c = client.clone();
+		let t = tokio::spawn(async move { c.subscribe::<Value, _>("sub", rpc_params!["s"], "unsub").await });
+		settle().await;
+		let sub_id = if r.bool() { json!(format!("wr-{k}")) } else { json!(1000 + k) };
+		for m in srv.drain_out() {
+			if let ClientOut::Msg { text, .. } = m {
+				if let WireMsg::Single(q) = parse_wire(&text) {
+					srv.push_text(ok_response(q.id.as_ref().unwrap_or(&Value::Null), sub_id.clone()));
+				}
+			}
+		}
+		let Ok(Ok(Ok(h))) = tokio::time::timeout(Duration::from_secs(30), t).await else {
+			violations.push(("subscribe-failed/accepted".into(), "setup of the refused-unsubscribe-write scenario".into()));
+			return (violations, false, 0);
+		};
+		handles.push(Some(h));
+		ids.push(sub_id);
+	}
+	settle().await;
+	let victim = r.usize(n_subs);
+	let mut unsubs_written = 0usize;
+	// only the next write fails; the receive side and later writes stay healthy
+	let n = srv.ctl.sends.load(Ordering::SeqCst);
+	*srv.ctl.fail_once_at.lock().unwrap() = Some((n, format!("message refused by the transport {seed:x}")));
+	let mut unsub_task = None;
+	match variant {
+		0 => drop(handles[victim].take()),
+		1 => {
+			let h = handles[victim].take().unwrap();
+			unsub_task = Some(tokio::spawn(async move { h.unsubscribe().await.map_err(|e| err_kind(&e)) }));
+		}
+		_ => {
+			for k in 0..BUFFER + 1 {
+				srv.push_text(sub_notif("m", &ids[victim], json!(k)));
+			}
+		}
+	}
+	for _ in 0..4 {
+		settle().await;
+	}
+	*srv.ctl.fail_once_at.lock().unwrap() = None;
+	if srv.ctl.sends.load(Ordering::SeqCst) <= n {
+		// the unsubscribe call was never attempted: nothing was refused (not the scenario)
+		violations.push((format!("unsubscribe-never-written/{label}"), format!("the subscription ended on the client side ({label}) but no unsubscribe call was handed to the transport")));
+		return (violations, client.is_connected(), 0);
+	}
+	let connected = client.is_connected();
+	if !connected {
+		return (violations, false, 0);
+	}
+	// the client carries on: the server closes the victim itself; the rest ends in the ordinary way
+	srv.push_text(sub_close("m", &ids[victim], json!("bye")));
+	settle().await;
+	let c = client.clone();
+	let call = tokio::spawn(async move { c.request::<Value, _>("call", rpc_params![1]).await.map(|_| ()).map_err(|e| err_kind(&e)) });
+	for h in handles.iter_mut() {
+		drop(h.take());
+	}
+	for _ in 0..4 {
+		settle().await;
+		for m in srv.drain_out() {
+			if let ClientOut::Msg { text, .. } = m {
+				if let WireMsg::Single(q) = parse_wire(&text) {
+					if q.method == "unsub" {
+						unsubs_written += 1;
+					}
+					if let Some(id) = &q.id {
+						srv.push_text(ok_response(id, json!(true)));
+					}
+				}
+			}
+		}
+	}
+	if let Some(t) = unsub_task {
+		let _ = tokio::time::timeout(Duration::from_secs(30), t).await;
+	}
+	if !matches!(tokio::time::timeout(Duration::from_secs(30), call).await, Ok(Ok(Ok(())))) {
+		if client.is_connected() {
+			violations.push(("call-not-completed/refused-unsubscribe-write".into(), "a call made after the refused write did not complete although the client is connected".into()));
+		}
+		return (violations, client.is_connected(), unsubs_written);
+	}
+	settle().await;
+	let sizes = client.verif_table_sizes();
+	if client.is_connected() && sizes != [0, 0, 0, 0] {
+		violations.push((
+			format!("tables-not-empty-at-end/unsubscribe-write-refused+{label}+server-close"),
+			format!("the transport refused the unsubscribe call of subscription {} ({label}), the client stayed connected, the server closed that subscription, the other {} were unsubscribed and acknowledged and every call was answered: the tables hold {sizes:?} (requests, subscriptions, batches, handlers)", ids[victim], n_subs - 1),
+		));
+	}
+	(violations, true, unsubs_written)
+}
+
 /// Which kind of cycle the history contained (for signatures): the last subscription-ending step kinds seen.
 fn leak_feature(steps: &[Step]) -> String {
 	let mut f: Vec<&str> = Vec::new();
@@ -796,10 +907,18 @@ fn main() {
 	let mut violations = Vec::new();
 	let replay = ctx.replay.is_some();
 	let mut specs: Vec<(Spec, String)> = Vec::new();
+	let mut replay_class: Option<String> = None;
+	let mut replay_seed: Option<u64> = None;
+	let mut replay_cycles: Option<usize> = None;
 	if let Some(path) = &ctx.replay {
 		let w: Value = serde_json::from_str(&std::fs::read_to_string(path).expect("replay")).expect("json");
 		let class = w["witness"]["class"].as_str().unwrap_or("seeded").to_string();
-		if class == "seeded" {
+		replay_class = Some(class.clone());
+		replay_seed = w["witness"]["seed"].as_u64();
+		replay_cycles = w["witness"]["cycles"].as_u64().map(|c| c as usize);
+		if class == "full-queue" || class == "unsub-write-refused" {
+			// replayed by the directed families below
+		} else if class == "seeded" {
 			specs.push((gen_spec(w["witness"]["seed"].as_u64().expect("seed")), class));
 		} else {
 			let n = w["witness"]["n_steps"].as_u64().unwrap_or(0) as usize;
@@ -815,12 +934,12 @@ fn main() {
 		specs.extend(directed_specs(3));
 		specs.extend(directed_specs(ctx.tier.pick(1000, 5000)).into_iter().filter(|(_, c)| c.starts_with("cycle:")));
 	}
-	if !replay {
-		let n = ctx.tier.pick(200u64, 10_000);
+	if !replay || replay_class.as_deref() == Some("full-queue") {
+		let n = if replay { 1 } else { ctx.tier.pick(200u64, 10_000) };
 		let seed = ctx.seed;
 		let res = run_parallel((0..n).collect(), |_, i| {
-			let s = Rng::fork(seed, 88_000_000 + i).next_u64();
-			let cycles = if i % 50 == 0 { 200 } else { 1 + (i % 4) as usize };
+			let s = replay_seed.filter(|_| replay).unwrap_or_else(|| Rng::fork(seed, 88_000_000 + i).next_u64());
+			let cycles = replay_cycles.filter(|_| replay).unwrap_or(if i % 50 == 0 { 200 } else { 1 + (i % 4) as usize });
 			(s, cycles, block_on_virtual(full_queue_drop_case(s, cycles)))
 		});
 		for (s, cycles, (v, _sizes, unsubs)) in res {
@@ -831,6 +950,23 @@ fn main() {
 			ev.nontrivial(&("full-queue-drop", s));
 			for (sig, d) in v {
 				violations.push(Violation::new(sig, d, json!({"scenario": "drop with a full request queue", "seed": s, "cycles": cycles, "class": "full-queue"})));
+			}
+		}
+	}
+	if !replay || replay_class.as_deref() == Some("unsub-write-refused") {
+		let seeds: Vec<u64> = match (&replay_seed, replay) {
+			(Some(s), true) => vec![*s],
+			_ => (0..ctx.tier.pick(300u64, 20_000)).map(|i| Rng::fork(ctx.seed, 89_000_000 + i).next_u64()).collect(),
+		};
+		let res = run_parallel(seeds, |_, s| (s, block_on_virtual(unsub_write_refused_case(s))));
+		for (s, (v, connected, unsubs)) in res {
+			ev.eval();
+			ev.count("cases_unsubscribe_write_refused", 1);
+			ev.count(if connected { "unsubscribe_write_refused_client_carried_on" } else { "unsubscribe_write_refused_client_gave_up_the_connection" }, 1);
+			ev.count("unsubscribe_write_refused_later_unsubscribes_written", unsubs as u64);
+			ev.nontrivial(&("unsub-write-refused", s));
+			for (sig, d) in v {
+				violations.push(Violation::new(sig, d, json!({"scenario": "the transport refuses the unsubscribe call", "seed": s, "class": "unsub-write-refused"})));
 			}
 		}
 	}
